@@ -1,0 +1,104 @@
+//go:build verif
+
+package sniproxy
+
+import (
+	"bytes"
+	"io"
+	"testing/iotest"
+)
+
+// This file is only built with the "verif" tag. It lets an external
+// verification harness hand the decoder readers that deliver the same bytes
+// in different ways (the decoder reads from whatever io.Reader the websocket
+// layer returns); it adds no behaviour to the package.
+
+// zeroThenReader returns (0, nil) on every other call, which io.Reader
+// permits, before passing the call on.
+type zeroThenReader struct {
+	r    io.Reader
+	flip bool
+}
+
+func (z *zeroThenReader) Read(p []byte) (int, error) {
+	z.flip = !z.flip
+	if z.flip && len(p) > 0 {
+		return 0, nil
+	}
+	return z.r.Read(p)
+}
+
+// chunkReader returns at most n bytes per call.
+type chunkReader struct {
+	r io.Reader
+	n int
+}
+
+func (c *chunkReader) Read(p []byte) (int, error) {
+	if len(p) > c.n {
+		p = p[:c.n]
+	}
+	return c.r.Read(p)
+}
+
+// VerifReaderShapes lists the delivery shapes of verifShapedReader.
+var VerifReaderShapes = []string{"plain", "one", "half", "dataerr", "zero", "chunk7", "one+dataerr"}
+
+func verifShapedReader(data []byte, shape string) io.Reader {
+	r := bytes.NewReader(data)
+	switch shape {
+	case "one": // one byte per Read
+		return iotest.OneByteReader(r)
+	case "half": // half of what is asked for
+		return iotest.HalfReader(r)
+	case "dataerr": // the last bytes arrive together with io.EOF
+		return iotest.DataErrReader(r)
+	case "zero": // (0, nil) in between
+		return &zeroThenReader{r: r}
+	case "chunk7":
+		return &chunkReader{r: r, n: 7}
+	case "one+dataerr":
+		return iotest.DataErrReader(iotest.OneByteReader(r))
+	}
+	return r
+}
+
+// VerifDecodeMsgShaped is VerifDecodeMsg reading from a reader of the given
+// delivery shape.
+func VerifDecodeMsgShaped(
+	name string, data []byte, bufCap int, end bool, shape string,
+) (fs []VerifField, count int64, errKind string, alloc uint64) {
+	m := verifNewMessage(name, nil, bufCap)
+	if m == nil {
+		return nil, 0, "other:unknown message", 0
+	}
+	dec := newDecoder(verifShapedReader(data, shape))
+	alloc = verifMeasure(func() {
+		m.decodeFrom(dec)
+		if end {
+			dec.end()
+		}
+	})
+	_, fs = verifFieldsOf(m)
+	return fs, dec.count(), VerifErrKind(dec.Err()), alloc
+}
+
+// VerifStartCallShaped is VerifStartCall reading from a reader of the given
+// delivery shape.
+func VerifStartCallShaped(data []byte, shape string) (
+	id uint64, typ uint8, name string, fs []VerifField, errKind string,
+	alloc uint64,
+) {
+	s := &endpointServer{}
+	var x *endpointExchange
+	var err error
+	r := verifShapedReader(data, shape)
+	alloc = verifMeasure(func() { x, err = s.startCall(r) })
+	if err != nil {
+		return 0, 0, "", nil, VerifErrKind(err), alloc
+	}
+	if x.req != nil {
+		name, fs = verifFieldsOf(x.req)
+	}
+	return x.id, x.t, name, fs, "ok", alloc
+}
